@@ -534,6 +534,34 @@ def build(tier, rng):
             g.case(("dup",) + tuple(sel))
             g.check(ctx.needs_update(h) is False, "libpass-context:duplicate-scheme", "context listing the same hasher object twice flags the hashes it has just produced", {"schemes": sel, "hash": h})
     groups.append(g)
+
+    # ------------------------------------------------------------------------------------------------
+    g = G("fresh-hash-fixed-point", "CryptContext.needs_update(CryptContext.hash(.))", "contexts that pin a non-default FORMAT option of their default scheme (bcrypt_sha256 version 1 / 2, bcrypt ident 2a / 2y / 2b, sha256_crypt with an explicit default cost, des_crypt truncate_error, per-category variants): the hash the context makes is not flagged, verify_and_update hands out no replacement, and a hash made under the other setting IS flagged when that setting is older / deprecated")
+    fixed = [
+        ("bcrypt_sha256 v1", dict(schemes=["bcrypt_sha256"], bcrypt_sha256__version=1, bcrypt_sha256__rounds=4), None),
+        ("bcrypt_sha256 v2", dict(schemes=["bcrypt_sha256"], bcrypt_sha256__version=2, bcrypt_sha256__rounds=4), dict(schemes=["bcrypt_sha256"], bcrypt_sha256__version=1, bcrypt_sha256__rounds=4)),
+        ("bcrypt_sha256 v1 for admin only", dict(schemes=["bcrypt_sha256", "md5_crypt"], bcrypt_sha256__rounds=4, admin__bcrypt_sha256__version=1), None),
+        ("bcrypt 2a", dict(schemes=["bcrypt"], bcrypt__ident="2a", bcrypt__rounds=4), None),
+        ("bcrypt 2y", dict(schemes=["bcrypt"], bcrypt__ident="2y", bcrypt__rounds=4), None),
+        ("bcrypt 2b", dict(schemes=["bcrypt"], bcrypt__ident="2b", bcrypt__rounds=4), None),
+        ("sha256_crypt 1500", dict(schemes=["sha256_crypt", "md5_crypt"], sha256_crypt__default_rounds=1500, deprecated=["md5_crypt"]), dict(schemes=["md5_crypt"])),
+    ]
+    for label, kw, older in fixed:
+        try:
+            ctx = CryptContext(**kw)
+            for cat in (None, "admin"):
+                g.case((label, cat))
+                hs = ctx.hash("pw", category=cat)
+                w = {"context": label, "category": cat, "hash": hs}
+                g.check(ctx.needs_update(hs, category=cat) is False, f"fixed-point:flagged:{label}", "the context flags the hash it has just made", w)
+                g.check(ctx.verify_and_update("pw", hs, category=cat) == (True, None), f"fixed-point:replaced:{label}", "verify_and_update replaces a hash the context has just made", w)
+            if older:
+                old_hash = CryptContext(**older).hash("pw")
+                g.case((label, "older"))
+                g.check(ctx.needs_update(old_hash) is True, f"fixed-point:older:{label}", "a hash made under the older / deprecated setting is not flagged", {"context": label, "hash": old_hash})
+        except Exception as err:  # noqa: BLE001
+            g.fail(f"fixed-point:crash:{label}", f"{type(err).__name__}: {err}"[:160], {"context": label})
+    groups.append(g)
     return groups, skipped, {"configs": stats, "probe_hashes": len(probes.cache)}
 
 
